@@ -273,6 +273,10 @@ impl C12 {
         let mut before: Vec<String> = case.ops[..k].iter().map(|o| o.kind()).collect();
         before.sort();
         before.dedup();
+        if alone.ok && got.ok && case.tolerant && self.alone.doc_has_cycle(&case.doc) {
+            // one root cause, many shapes (which call, which calls before, with or without eviction)
+            return "tolerant mode, document with a typed reference cycle: where the cycle is cut depends on the calls made before (the cut object is cached)".to_string();
+        }
         let kind = if alone.ok && got.ok { "different value" } else if alone.ok != got.ok { "Ok/Err class differs" } else { "different kind of error" };
         let mut flags = vec![];
         if case.tolerant {
